@@ -202,17 +202,17 @@ type Runner struct {
 	everDel   bool
 
 	// optional behaviours
-	Transcript    *[]string                       // C14: results of every call
-	Poison        *PoisonBufs                     // C15: shared caller buffers
-	AfterStep     []func(r *Runner, op *Op) *Fail // extra oracles (C13, C17 …)
-	NoDump        bool                            // skip the per-step dump (lock-step followers)
-	BeforeStep    []func(r *Runner, op *Op)
-	OnClosed      func(r *Runner) *Fail // called between Close and Open of a reopen (C13)
-	OnKilled      func(r *Runner)       // called between the death of the process and the restart of a kill op (C13)
-	staleBatch    *kv.Batch             // a committed batch whose handle the "caller" kept
+	Transcript *[]string                       // C14: results of every call
+	Poison     *PoisonBufs                     // C15: shared caller buffers
+	AfterStep  []func(r *Runner, op *Op) *Fail // extra oracles (C13, C17 …)
+	NoDump     bool                            // skip the per-step dump (lock-step followers)
+	BeforeStep []func(r *Runner, op *Op)
+	OnClosed   func(r *Runner) *Fail // called between Close and Open of a reopen (C13)
+	OnKilled   func(r *Runner)       // called between the death of the process and the restart of a kill op (C13)
+	staleBatch *kv.Batch             // a committed batch whose handle the "caller" kept
 	// NoHuge: no value of more than a mebibyte is generated (the crash engine keeps the bytes of every file at every
 	// frozen instant in memory: a 2 MiB record times hundreds of instants would look like an unbounded allocation)
-	NoHuge bool
+	NoHuge        bool
 	prefixDstUsed bool
 	foldMutates   bool
 	spelling      int                   // how the directory is spelled in every Open of this history (Opt.Spelling of the first configuration)
